@@ -78,6 +78,18 @@ class Check:
         with ctx.Pool(NCPU, maxtasksperchild=2000) as pool:
             recs = pool.map(fn, cases, chunksize=chunksize)
         self.evaluations += len(recs)
+        # a run that did not return is repeated once on the then quiet machine: the code under test is deterministic, a failure
+        # that does not repeat came from the environment (memory pressure turns into MemoryError, which a bare `except:` of
+        # the package loader turns into exit status 1); systematic failures (more than 60) are not repeated
+        bad = [i for i, r in enumerate(recs) if isinstance(r, dict) and r.get('outcome') not in (None, 'returned')]
+        if 0 < len(bad) <= 60:
+            with ctx.Pool(min(NCPU, 4), maxtasksperchild=50) as pool:
+                again = pool.map(fn, [cases[i] for i in bad], chunksize=1)
+            for i, r in zip(bad, again):
+                if isinstance(r, dict) and r.get('outcome') == 'returned':
+                    self.notes.append('case %s: %s at the first attempt, returned when repeated' % (recs[i].get('id'), recs[i].get('outcome')))
+                    recs[i] = r
+            self.evaluations += len(again)
         return recs
 
     # ------------------------------------------------------- trace validation
